@@ -143,7 +143,7 @@ class C12(runner.Check):
             'restart.clean', 'probe.stopping-trial-present', 'probe.mode.service-serializable', 'probe.mode.service-rebuild',
             'probe.mode.inram-alive', 'probe.mode.inram-rebuilt', 'probe.id-reused-after-delete',
             'probe.mode.service-default', 'probe.study-recreated', 'probe.mode.inram-designerpolicy',
-            'probe.completion-missing-an-objective']
+            'probe.completion-missing-an-objective', 'probe.long-study-with-straggler']
 
   def gen(self, rng, idx, tier):
     mode = rng.choice(['service-serializable'] * 4 + ['service-default'] * 2 + ['service-rebuild', 'inram-alive', 'inram-rebuilt', 'inram-designerpolicy'])
@@ -196,6 +196,17 @@ class C12(runner.Check):
       else:
         ops.append([k, {}])
     ops.append(['SuggestTrials', {'study': ss, 'n': 7, 'worker': 3}])
+    if rng.random() < (0.02 if tier == 'quick' else 0.04) and mode != 'service-default':
+      # a long study with a straggler: one early trial stays ACTIVE while another worker suggests and
+      # completes 115 more (id windows, pages and low-water marks only show beyond 50 / 100 trials)
+      ops = [['CreateStudy', {'o': 0, 'd': 0, 'state': 'ACTIVE'}],
+             ['SuggestTrials', {'study': ss, 'n': rng.choice([1, 2]), 'worker': 0}]]
+      for _ in range(115):
+        ops.append(['SuggestTrials', {'study': ss, 'n': 1, 'worker': 1}])
+        ops.append(['CompleteTrial', {'study': ss, 'trial': {'pref': 'max', 'i': 0}, 'ckind': 'final', 'v': 1, 'reason': 'bad'}])
+      ops.append(['CompleteTrial', {'study': ss, 'trial': {'pref': 'active', 'i': 0}, 'ckind': 'final', 'v': 2, 'reason': 'bad'}])
+      ops.append(['SuggestTrials', {'study': ss, 'n': 1, 'worker': 1}])
+      cfg['marathon'] = True
     return {'cfg': cfg, 'entropy': rng.randrange(2**31), 'ops': ops}
 
   def simplify(self, plan):
@@ -215,6 +226,8 @@ class C12(runner.Check):
         self._run_inram(plan, res)
     res.sim_s += clk.elapsed
     res.bump('probe.mode.' + cfg['mode'])
+    if cfg.get('marathon'):
+      res.bump('probe.long-study-with-straggler')
     return res
 
   # ------------------------------------------------------------- service
